@@ -124,10 +124,6 @@ func (self *Parser) implBlockHead() (ast.ImplBlock, *errors.Error) {
 
 			// If there is a `}`, this was a trailing comma
 			if self.CurrentToken.Kind == lexer.RCurly {
-				if err := self.next(); err != nil {
-					return ast.ImplBlock{}, err
-				}
-
 				break
 			}
 
